@@ -37,6 +37,9 @@ def run(ctx):
     r4_accidentals(ctx)
     r5_clefs(ctx)
     r6_clef_in_force(ctx)
+    if ctx.tier == 'thorough':
+        from .. import regen
+        regen.check(ctx, 'R7')
 
 
 def _letter_table(ctx):
